@@ -166,6 +166,20 @@ def run(ch, idx, tier):
     use_progs = entry.meta["has_progset"] and ch.flip("with_programs", 0.65)
     progset = P.progsets[0] if use_progs else None
     history = []
+    if progset is not None and ch.flip("outcomes_in_untargeted_pops", 0.3):
+        # a valid program book may hold an outcome for a population the program does not target (the cell is only
+        # highlighted): every program gets one where the book's structure allows it
+        n_added = 0
+        for prog in progset.programs.values():
+            for co in progset.covouts.values():
+                if co.pop not in prog.target_pops and prog.name not in co.progs:
+                    co.progs[prog.name] = co.baseline * 1.2 + 0.01
+                    co.update_outcomes()
+                    n_added += 1
+                    break
+        if n_added:
+            progset = at.ProgramSet.from_spreadsheet(progset.to_spreadsheet(), framework=fw, data=data)
+            history.append(f"program book with {n_added} outcomes in untargeted populations")
     if progset is not None and ch.flip("other_currency", 0.3):
         # a program book kept in another currency (the currency is whatever the spending units say)
         cur = ch.pick("currency", ["EUR", "AUD", "R", "£"])
@@ -393,6 +407,9 @@ def run(ch, idx, tier):
                         prog.spend_data = at.TimeSeries(float(progset.tvec[0]), spend, units=other.spend_data.units)
                         prog.unit_cost = at.TimeSeries(float(progset.tvec[0]), uc, units=other.unit_cost.units)
                     covs = [co for co in progset.covouts.values() if co.pop in prog.target_pops]
+                    if ch.flip("add_program.effect_in_untargeted_pop", 0.3):
+                        # a program book may hold an outcome for a population the program does not target (the cell is only highlighted)
+                        covs = list(progset.covouts.values())
                     if covs and ch.flip("add_program.effect", 0.7):
                         co = covs[ch.choose("add_program.covout", len(covs))]
                         co.progs[code] = 0.0 if ch.flip("add_program.zero_outcome", 0.3) else co.baseline * ch.uniform("add_program.outcome", 0.5, 1.5) + 0.01
